@@ -2,6 +2,8 @@ import RedisGoModel.Conc.Conc
 /-! Instantiating the generic atomicity theorem with tree-shaped programs (`Exec`), and the first corollary in the
     property's own words: concurrent INCRs lose no increment. Core Lean only. -/
 namespace Cc
+/-- the counters of this file: keys and values are natural numbers -/
+abbrev Key := Nat
 
 /-- executor trees: a reply, or a locked block whose continuation depends on what it saw -/
 inductive Prog (ρ : Type)
@@ -10,7 +12,7 @@ inductive Prog (ρ : Type)
 
 variable {ρ : Type}
 
-def view : Prog ρ → Option (Block (Prog ρ))
+def view : Prog ρ → Option (Block Nat Nat (Prog ρ))
 | .done _ => none
 | .block m ks b nx => some ⟨m, ks, b, nx⟩
 
@@ -72,12 +74,12 @@ theorem countP_setT {n : Nat} (f : Fin n → Prog ρ) (i : Fin n) (x : Prog ρ) 
       omega
 
 /-- state of the atomic semantics while `n` INCRs of `k` are in flight, starting from value `v` -/
-structure IncrInv {n : Nat} (k : Key) (v : Nat) (a : Abs (Prog Nat) n) : Prop where
+structure IncrInv {n : Nat} (k : Key) (v : Nat) (a : Abs Nat Nat (Prog Nat) n) : Prop where
   cnt   : a.db k = v + (List.finRange n).countP (fun j => isDone (a.pr j))
   shape : ∀ i, a.pr i = incr k ∨ ∃ r, a.pr i = .done r ∧ v < r ∧ r ≤ a.db k
   inj   : ∀ i j r, a.pr i = .done r → a.pr j = .done r → i = j
 
-theorem incr_step {n : Nat} (k : Key) (v : Nat) (a : Abs (Prog Nat) n) (h : IncrInv k v a) (i : Fin n) :
+theorem incr_step {n : Nat} (k : Key) (v : Nat) (a : Abs Nat Nat (Prog Nat) n) (h : IncrInv k v a) (i : Fin n) :
     IncrInv k v (absStep view a (some i)) := by
   rcases h.shape i with hi | ⟨r, hi, _⟩
   · have hv : view (a.pr i) = some ⟨.W, [k], (fun s => [(k, s k + 1)]), (fun s => .done (s k + 1))⟩ := by
@@ -127,7 +129,7 @@ theorem incr_step {n : Nat} (k : Key) (v : Nat) (a : Abs (Prog Nat) n) (h : Incr
     rw [this]; exact h
 
 theorem incr_run {n : Nat} (k : Key) (v : Nat) (tr : List (Fin n)) :
-    ∀ a : Abs (Prog Nat) n, IncrInv k v a → IncrInv k v (absRun view a tr) := by
+    ∀ a : Abs Nat Nat (Prog Nat) n, IncrInv k v a → IncrInv k v (absRun view a tr) := by
   induction tr with
   | nil => intro a h; exact h
   | cons i r ih => intro a h; exact ih _ (incr_step k v a h i)
@@ -135,12 +137,12 @@ theorem incr_run {n : Nat} (k : Key) (v : Nat) (tr : List (Fin n)) :
 /-- **no lost increment**: `n` clients INCR the same key concurrently, in any interleaving of lock acquisitions,
     reads and writes; once all have their reply the key holds `v + n`, and the replies are `n` distinct values in
     `v+1 … v+n` (so each of them exactly once) -/
-theorem no_lost_increment {n : Nat} (k : Key) (db : Key → Nat) {c' : Conc (Prog Nat) n} {tr}
+theorem no_lost_increment {n : Nat} (k : Key) (db : Key → Nat) {c' : Conc Nat Nat (Prog Nat) n} {tr}
     (e : Exec view ⟨db, fun _ => .idle (incr k)⟩ tr c') (reply : Fin n → Nat)
     (hq : ∀ i, c'.th i = .idle (.done (reply i))) :
     c'.db k = db k + n ∧ (∀ i, db k < reply i ∧ reply i ≤ db k + n) ∧ (∀ i j, reply i = reply j → i = j) := by
   have hat := atomicity closed db (fun _ => incr k) (fun _ => incr_disciplined k) e (fun i => .done (reply i)) hq
-  have h0 : IncrInv k (db k) (⟨db, fun _ => incr k⟩ : Abs (Prog Nat) n) := by
+  have h0 : IncrInv k (db k) (⟨db, fun _ => incr k⟩ : Abs Nat Nat (Prog Nat) n) := by
     refine ⟨?_, fun i => Or.inl rfl, ?_⟩
     · have : (List.finRange n).countP (fun _ => isDone (incr k)) = 0 := by
         rw [List.countP_eq_zero]; intro _ _; simp [isDone, incr]
